@@ -113,10 +113,11 @@ impl StreamingQueryExecutor {
             .iter()
             .map(|chunk| chunk.chunk_path.clone())
             .collect();
-        let historical_batches = self
+        let df = self
             .engine
-            .with_metrics_table(&chunk_paths, || async { self.engine.execute(sql).await })
+            .with_metrics_table(&chunk_paths, || self.engine.plan(sql))
             .await?;
+        let historical_batches = self.engine.collect(df).await?;
 
         let receiver = self.receiver;
 
